@@ -62,6 +62,11 @@ func RunC18(k *fw.Case) {
 	for i := 0; i < nRules; i++ {
 		cr := &concRule{name: fmt.Sprintf("c%d", i), base: (i + 1) * 100}
 		n := 1 + r.Intn(8)
+		wide := r.Intn(4) == 0
+		if wide {
+			// a wide block: many local-writing assignments next to local-reading calls
+			n = 14 + r.Intn(10)
+		}
 		usedInj := 0
 		var b strings.Builder
 		fmt.Fprintf(&b, "rule \"%s\" salience %d\nbegin\n  st(%d)\n  pre1 = %d\n  pre2 = %d\n  conc {\n", cr.name, 100-i, cr.base, 7000+i, 8000+i)
@@ -73,6 +78,9 @@ func RunC18(k *fw.Case) {
 		for j := 0; j < n; j++ {
 			m := concMember{ID: cr.base + 1 + j, Val: int64(1000*(i+1) + j)}
 			cat := []string{"assign-local", "assign-injected", "func", "method", "three"}[r.Intn(5)]
+			if wide {
+				cat = []string{"assign-local", "func", "assign-local", "method"}[j%4]
+			}
 			if cat == "assign-injected" && (usedInj >= len(injFields) || i > 0) {
 				// injected fields are distinct per block and only used by the first rule (later rules would overwrite)
 				cat = "assign-local"
